@@ -28,8 +28,8 @@ type Prog struct {
 
 func catFuncs() vuego.FuncMap {
 	return vuego.FuncMap{
-		"shout":  func(s string) string { return strings.ToUpper(s) + "!" },
-		"add":    func(a, b int) int { return a + b },
+		"shout": func(s string) string { return strings.ToUpper(s) + "!" },
+		"add":   func(a, b int) int { return a + b },
 		"failif": func(s string) (string, error) {
 			if s == "boom" {
 				return "", errors.New("failif: boom")
@@ -86,6 +86,10 @@ func Catalogue() []Prog {
 		}
 		p := Prog{Name: name, Dir: dir, Mode: mode, Data: data(ex2), WantErr: wantErr, Files: map[string]string{}}
 		for k, v := range files {
+			if strings.HasPrefix(k, "/") {
+				p.Files[k[1:]] = sub(v) // a file outside the program's directory (layouts/...)
+				continue
+			}
 			p.Files[dir+"/"+k] = sub(v)
 		}
 		page = sub(page)
@@ -147,6 +151,18 @@ func Catalogue() []Prog {
 		map[string]string{"w.vuego": `<style v-once>.w{}</style><p>w</p>`, "w2.vuego": `<style v-once>.w2{}</style><p>w2</p>`}, nil, false)
 	add("layout", F, "---\nlayout: lay\npagevar: from-page\n---\n<p>{{ title }} {{ pagevar }}</p>",
 		map[string]string{"lay.vuego": "---\nlayout: outer\nlayvar: from-lay\n---\n<div class=\"lay\">{{ pagevar }} {{ layvar }}<div v-html=\"content\"></div></div>", "outer.vuego": `<html><head><title>{{ title }}</title></head><body><div v-html="content"></div></body></html>`}, nil, false)
+	add("layout-single", F, "---\nlayout: one\n---\n<p>{{ title }} {{ user.name }}</p>",
+		map[string]string{"one.vuego": `<main class="one"><h1>{{ title }}</h1><div v-html="content"></div><i v-for="lk_it in items">{{ lk_it.name }}</i></main>`}, nil, false)
+	add("layout-deep", F, "---\nlayout: l1\n---\n<p>{{ title }}</p>",
+		map[string]string{"l1.vuego": "---\nlayout: l2\n---\n<div class=\"l1\" v-html=\"content\"></div>", "l2.vuego": "---\nlayout: l3\n---\n<div class=\"l2\" v-html=\"content\"></div>",
+			"l3.vuego": "---\nlayout: l4\n---\n<div class=\"l3\">{{ user.name }}<div v-html=\"content\"></div></div>", "l4.vuego": `<html><head><title>{{ title }}</title></head><body v-html="content"></body></html>`}, nil, false)
+	add("layout-component-slot", F, "---\nlayout: shell\n---\n<template #side><b>{{ user.name }}</b></template><p>{{ title }}</p>",
+		map[string]string{"shell.vuego": `<div class="shell"><aside><slot name="side">no side</slot></aside><template include="@D/card.vuego" :t="title"></template><div v-html="content"></div></div>`, "card.vuego": `<section>{{ t }}</section>`}, nil, false)
+	// one bare layout name used from two directories: next to the page in one, only in layouts/ for the other
+	add("layout-name-own", F, "---\nlayout: post\n---\n<p>own {{ title }}</p>",
+		map[string]string{"post.vuego": `<article class="own-post"><div v-html="content"></div></article>`}, nil, false)
+	add("layout-name-shared", F, "---\nlayout: post\n---\n<p>shared {{ title }}</p>",
+		map[string]string{"/layouts/post.vuego": `<section class="shared-post">{{ user.name }}<div v-html="content"></div></section>`}, nil, false)
 	add("frontmatter", F, "---\ntitle: FM Title\nlist:\n  - 1\n  - 2\nnested:\n  k: v\n---\n<h1>{{ title }}</h1><i v-for=\"x in list\">{{ x }}</i><b>{{ nested.k }}</b>", nil, nil, false)
 	add("full-document", F, "<!DOCTYPE html>\n<html lang=\"en\"><head><meta charset=\"utf-8\"><title>{{ title }}</title></head><body class=\"b\"><p v-if=\"show\">{{ user.name }}</p></body></html>", nil, nil, false)
 	add("file-filter", F, `<pre v-html="file('@D/inc.txt')"></pre><p>{{ incpath | file }}</p>`, map[string]string{"inc.txt": "included <text> & more"}, map[string]TV{"incpath": tvS("@D/inc.txt")}, false)
